@@ -490,6 +490,80 @@ Fixpoint utf8_valid (l : bytes) : bool :=
     end
   end.
 
+(* =========================================================== net_if_addrs() *)
+(* One node of the list getifaddrs() returns.  A sockaddr is seen through the family of ifa_addr:
+   link layer (sll_halen bytes of hardware address, any length up to 255), or a family whose numeric text
+   comes from getnameinfo(NI_NUMERICHOST) (AF_INET, AF_INET6; glibc trusted: the text is part of the input),
+   or some other family. *)
+Inductive saddr := SaLL (data : bytes) | SaText (fam : Z) (text : bytes) | SaOther (fam : Z).
+Record ifa := { ifa_name : bytes; ifa_flags : Z; ifa_addr : option saddr; ifa_mask : option saddr;
+                ifa_baddr : option saddr }.   (* ifa_baddr: the ifa_broadaddr / ifa_dstaddr union *)
+Definition AF_PACKET : Z := 17.
+Definition sa_family (s : saddr) : Z := match s with SaLL _ => AF_PACKET | SaText f _ => f | SaOther f => f end.
+
+(* psutil_convert_ipaddr(addr, family): the family is the one of ifa_addr; a sockaddr of another kind would be
+   reinterpreted byte-wise by the C code (OutOfModel) *)
+Definition convert_ipaddr (junk : bytes) (sa : option saddr) (family : Z) : outcome (option bytes) :=
+  match sa with
+  | None => Val None
+  | Some s =>
+    if negb (sa_family s =? family) then OutOfModel
+    else match s with
+         | SaText _ t => Val (Some t)
+         | SaLL data => Val (mac_string junk data)      (* None for sll_halen = 0 *)
+         | SaOther _ => Val None
+         end
+  end.
+
+Record nrow := { n_name : bytes; n_fam : Z; n_addr : bytes; n_mask : option bytes; n_bcast : option bytes;
+                 n_ptp : option bytes }.
+
+(* one iteration of the loop in psutil_net_if_addrs; Py_BuildValue("(siOOOO)") decodes the name as strict UTF-8 *)
+Definition c_ifa_row (junk : bytes) (i : ifa) : outcome (option nrow) :=
+  match ifa_addr i with
+  | None => Val None
+  | Some a =>
+    let family := sa_family a in
+    do address <- convert_ipaddr junk (Some a) family;
+    match address with
+    | None => Val None           (* "If the primary address can't be determined just skip it" *)
+    | Some ad =>
+      do mask <- convert_ipaddr junk (ifa_mask i) family;
+      do bp <- (if Z.testbit (ifa_flags i) 1            (* IFF_BROADCAST *)
+                then do b <- convert_ipaddr junk (ifa_baddr i) family; Val (b, None)
+                else if Z.testbit (ifa_flags i) 4       (* IFF_POINTOPOINT *)
+                then do p <- convert_ipaddr junk (ifa_baddr i) family; Val (None, p)
+                else Val (None, None));
+      if utf8_valid (ifa_name i)
+      then Val (Some {| n_name := ifa_name i; n_fam := family; n_addr := ad; n_mask := mask;
+                        n_bcast := fst bp; n_ptp := snd bp |})
+      else Exc UnicodeError
+    end
+  end.
+
+Fixpoint c_net_if_addrs (junk : bytes) (l : list ifa) : outcome (list nrow) :=
+  match l with
+  | [] => Val []
+  | i :: r =>
+    do x <- c_ifa_row junk i;
+    do xs <- c_net_if_addrs junk r;
+    Val (match x with Some row => row :: xs | None => xs end)
+  end.
+
+(* psutil.net_if_addrs(): rawlist.sort(key=family) (stable), then the AF_LINK padding of the address *)
+Fixpoint insert_by_fam (x : nrow) (l : list nrow) : list nrow :=
+  match l with
+  | [] => [x]
+  | y :: r => if n_fam x <=? n_fam y then x :: l else y :: insert_by_fam x r
+  end.
+Definition sort_by_fam (l : list nrow) : list nrow := fold_right insert_by_fam [] l.
+Definition pad_row (r : nrow) : nrow :=
+  if n_fam r =? AF_PACKET
+  then {| n_name := n_name r; n_fam := n_fam r; n_addr := py_mac_pad (n_addr r); n_mask := n_mask r;
+          n_bcast := n_bcast r; n_ptp := n_ptp r |}
+  else r.
+Definition py_net_if_addrs (rows : list nrow) : list nrow := map pad_row (sort_by_fam rows).
+
 (* psutil_disk_partitions: device and mount point decoded with the filesystem encoding
    (surrogateescape, total); legacy: type and options with strict UTF-8 ("s"); fixed: all four alike *)
 Fixpoint c_disk_partitions (fixed : bool) (es : list ment) : outcome (list ment) :=
